@@ -112,5 +112,5 @@ Proof.
 Qed.
 
 (** every accepted way of giving a tilt range selects the same model (structural anchor of TomographyInput.__init__) *)
-Lemma entry_points_agree : legacy_tilt_range_honoured = true /\ nowedge_is_ones = true /\ union_is_maximum = true.
+Lemma entry_points_agree : legacy_tilt_range_honoured = true /\ nowedge_is_ones = true /\ union_is_maximum = true /\ factories_as_modelled = true.
 Proof. repeat split; reflexivity. Qed.
